@@ -132,6 +132,7 @@ def showIo : IoErr → String
   | .connectionAborted => "aborted" | .invalidData => "invalid" | .other => "other" | .unexpectedEof => "eof"
   | .writeZero => "writezero" | .connectionReset => "reset" | .transportRead => "tread"
   | .transportWrite => "twrite" | .transportFlush => "tflush" | .writersAlive => "writers"
+  | .abortRequest => "abort-request"
 
 def showStatus : ExitStatus → String
   | .complete c => s!"complete:{c}" | .overloaded => "overloaded" | .unknownRole => "unknownrole"
@@ -294,8 +295,8 @@ def pollConn (fuel : Nat) (c : Conn) : Conn × PRes :=
         match res with
         | .ok st => pollConn fuel { c with phase := .closing r .start st alive, env := e.ev s!"HE(ok:{showStatus st})" }
         | .error x =>
-          if x == .connectionAborted then
-            pollConn fuel { c with phase := .closing r .start ExitStatus.abort alive, env := e.ev "HE(err:aborted)" }
+          if x == .abortRequest then
+            pollConn fuel { c with phase := .closing r .start ExitStatus.abort alive, env := e.ev "HE(err:abort-request)" }
           else ({ c with phase := .finished, env := e.ev s!"HE(err:{showIo x})" }, .finished)
     | .closing r cs status alive =>
       match closePoll r cs status alive c.env.mutex c.env.tr with
